@@ -15,18 +15,33 @@ import hgxv
 if hasattr(sys, "set_int_max_str_digits"):
     sys.set_int_max_str_digits(0)      # exact model p-values of the magnitude stream have > 4300 digits
 
-RULE = ("A: random containers of the four types (3-7 nodes, int or string labels, 1-9 records of size 1-4 with sub-/"
-        "super-set records injected so that shrinking collides, times 0-3 / 3 layers / disjoint non-empty sides, weighted "
-        "or not, weights k/4 or ints, metadata over 4 attributes and 10 values incl. None, the falsy 0 and '', an unhashable "
-        "list, and missing attributes), in 30% a history with removals before the filter (records through an extra node "
-        "inserted among the real ones and removed by remove_edge / remove_node with either keep_edges), node and edge "
-        "criteria None / {} / 1-2 attributes with 1-3 allowed values (incl. None and values nobody has), both modes, both "
-        "keep_edges, in 30% a second filter_hypergraph call on the same object; distinct by (type, content, criteria, mode, "
-        "keep_edges); non-trivial when the criteria keep >=1 and remove >=1 item. B: Hypergraphs with positive integer "
+RULE = ("A: random containers of the four types (3-7 nodes, 1-9 records of size 1-4 with sub-/super-set records injected so "
+        "that shrinking collides, times from one of three families (0-2, 300-1000, around 2^63/2^64) / 3 layers / disjoint "
+        "non-empty sides, weighted or not, weights k/4 or integers up to 2^70). LABELS ARE OBJECTS of one kind per case: small "
+        "ints, run-time strings, ints > 256, ints around 2^53 / +-2^63 / 2^64 / 2^70 and negative, floats, ints next to floats, "
+        "numpy.int64, and (Hypergraph, Directed) tuples of ints / (str, int); every label, attribute name, metadata value, "
+        "weight, time, layer, mode string in every call is a newly constructed equal object (in 20% of the int-labelled "
+        "cases also the equal float, 3 / 3.0), metadata dicts fresh per item or (25%) ONE dict object for all items with equal "
+        "metadata. Metadata over 4 attributes, values drawn per case from a handful of the 44 pool values of every JSON type "
+        "(strings, ints, floats, bools, None, lists, dicts, nested, falsy 0 / 0.0 / False / '' / [] / {}, 2^70, 2^53+1 vs "
+        "2.0^53, look-alikes '1' / 'None' / '25') with their equal values of other types (1 / 1.0 / True), missing attributes; "
+        "in 30% a history with removals before the filter (records through an extra node inserted among the real ones and "
+        "removed by remove_edge / remove_node with either keep_edges); node and edge criteria None / {} / 1-2 attributes with "
+        "0-3 allowed values (65% values somebody has, 35% replaced by an equal value of another type, None, values nobody has) "
+        "handed over as list / tuple / set / frozenset / dict keys / range (hash based ones only where every metadata value of "
+        "the attribute is hashable), one dict object for both roles when equal; both modes, keep_edges False / True (5% each as "
+        "numpy.bool_ / int); the caller's criteria are compared with a deep copy after the call and then emptied / overwritten "
+        "in place BEFORE the content is read; in 30% a second filter_hypergraph call on the same object; distinct by (type, "
+        "content, criteria, containers, mode, keep_edges); non-trivial when the criteria keep >=1 and remove >=1 item. "
+        "B: Hypergraphs with positive integer "
         "weights in four styles: random (3-9 nodes, 1-12 hyperedges of size 1-5, heavy-tailed weights, a few heavy disjoint "
         "ones), twins (2-5 nearly disjoint hyperedges per size with equal or neighbouring weights: tied / close p-values), "
         "big_size (sizes 6-12, weights 20-400, shared core: prod K_i >= 2^63) and big_weight (sizes 2-6, weights 200-3000, "
-        "one case per quick run and 3% of the thorough magnitude cases beyond 2^15 / 2^16); in 30% each a history (hyperedges "
+        "one case per quick run and 3% of the thorough magnitude cases beyond 2^15 / 2^16); labels mapped order-preservingly to "
+        "one kind per case (small ints, run-time strings, ints > 256, integer bands below and above 2^53 / 2^63 / 2^64 / 2^70 in "
+        "one hypergraph, floats, floats next to ints beyond 2^53, tuples, numpy.int64), fresh objects in every add_edge; "
+        "weights as Python ints or numpy int64 / int32 / int16 / uint8 / uint32 (half of the cases); 12% max_order / alpha as "
+        "numpy scalars; in 30% each a history (hyperedges "
         "inserted and removed, weights arriving in two instalments, isolated nodes); max_order 0-6, 10, around the largest "
         "size, 12, 20; alpha from {0.01, 0.05, 0.2, 0.5, 1.0} or (40%, twins 70%) strictly between two neighbouring "
         "breakpoints C(n_a,n) p_(i)/i of the exact p-values, preferring alphas for which the positions below the step-up "
@@ -36,9 +51,18 @@ RULE = ("A: random containers of the four types (3-7 nodes, int or string labels
 ASSUMPTIONS = ["hyperedges are duplicate-free node tuples; directed ones have disjoint non-empty sides (quantifier)",
                "class invariants of the containers (C01-C04): distinct keys, every node of a key is a node, an unweighted "
                "container has all weights 1",
-               "labels/layers are mapped to their rank, metadata attributes and values to tokens (== on the value pool "
-               "coincides with token equality) before they reach the model",
-               "get_svh: positive integer weights (quantifier); alpha in (0, 1]"]
+               "labels are hashable, mutually comparable objects (what the containers sort hyperedges with); tuple labels only "
+               "for Hypergraph / DirectedHypergraph (Temporal / Multiplex read a pair of tuples as a directed hyperedge: known "
+               "findings D49 / D50 of C03 / C04)",
+               "labels/layers are mapped to their rank, metadata attributes to their index and metadata values to the token of "
+               "their ==-class in the value pool (criteria matching is `value in allowed`, i.e. ==: 1, 1.0, True are one "
+               "value) before they reach the model; Lean has no object identity - that every equal object is treated alike is "
+               "exactly what the correspondence on freshly constructed objects checks",
+               "allowed values in a set / frozenset / dict are only generated where every metadata value of the attribute is "
+               "hashable (an unhashable value `in` a set is a TypeError of Python, not of the filter)",
+               "the caller's criteria objects are unchanged by the call (reported as a violation otherwise: the same criteria "
+               "would select differently on their next use)",
+               "get_svh: positive integer weights (quantifier; Python or numpy integers); alpha in (0, 1]"]
 TRUSTED = ["scipy.stats.binom.sf is a parameter of the model; compared on every generated row with the binomial tail summed "
            "from the definition in 150-digit decimal arithmetic (self-tested against the exact rational sum on every run): "
            "relative tolerance 1e-9 (+1e-300 for underflow), else the row must lie between the tails for "
@@ -50,9 +74,106 @@ TRUSTED = ["scipy.stats.binom.sf is a parameter of the model; compared on every 
 BUDGET_S = {"quick": 45, "thorough": 780}
 
 ATTRS = ["type", "age", "country", "k"]
-# + None; pairwise != and no 1/True/1.0 collisions; the last three are the falsy values 0 and '' and an unhashable one
-VALUES = ["person", "location", "animal", 25, 30, 2.5, "x", 0, "", ["x", 1]]
+# Metadata values: every JSON type. Criteria matching is `value in allowed`, i.e. == on the elements, so the model's
+# value tokens are the ==-CLASSES of this pool: a value's token is the index of the first pool entry it equals
+# (1 == 1.0 == True, 0 == 0.0 == False, ["x", 1] == ["x", True], 2**70 == float(2**70) share a token; "1" != 1,
+# "" != 0 != None != [] != {}, 2**53 + 1 != float(2**53) do not).
+VALUES = ["person", "location", "animal", 25, 30, 2.5, "x", 0, "", ["x", 1],
+          1, "1", "None", "25", [], {}, {"a": 1}, [["x", 1], None], [None], -1, 2 ** 70, 2 ** 53 + 1, float(2 ** 53),
+          1e300, [0], "0", "Person", {"a": [1, 2], "b": None}]
+# equal objects of another type (same token as their pool twin)
+TWINS = [1.0, True, 0.0, False, 25.0, 30.0, ["x", 1.0], ["x", True], {"a": 1.0}, {"a": True}, [False], [0.0],
+         float(2 ** 70), -1.0, [["x", True], None], {"b": None, "a": [1.0, 2]}]
+GEN_VALUES = VALUES + TWINS
 LAYERS = ["alpha", "beta", "gamma"]
+TIMES = [[0, 1, 2], [300, 301, 1000], [2 ** 63 - 1, 2 ** 63, 2 ** 64 + 1]]      # per case one family of time stamps
+
+
+def lab(x):
+    """hashable form of a label as a case stores it (JSON: a tuple label is a list)"""
+    return tuple(lab(y) for y in x) if isinstance(x, (list, tuple)) else x
+
+
+def hashable(v):
+    return not isinstance(v, (list, dict))
+
+
+def same(a, b):
+    """equal AND of the same types all the way down (1 is not 1.0 is not True)"""
+    if type(a) is not type(b):
+        return False
+    if isinstance(a, dict):
+        return len(a) == len(b) and all(k in b and same(v, b[k]) for k, v in a.items())
+    if isinstance(a, (list, tuple)):
+        return len(a) == len(b) and all(same(x, y) for x, y in zip(a, b))
+    return a == b
+
+
+def deep(v):
+    """an independent copy of a JSON-like value (dicts, lists, tuples, sets of scalars)"""
+    if isinstance(v, dict):
+        return {k: deep(x) for k, x in v.items()}
+    if isinstance(v, list):
+        return [deep(x) for x in v]
+    if isinstance(v, tuple):
+        return tuple(deep(x) for x in v)
+    if isinstance(v, set):
+        return set(v)
+    return v
+
+
+class Fresh:
+    """Labels, attribute names, metadata values, modes ... are OBJECTS: every use in a call gets a newly constructed
+    equal object (ints beyond CPython's small-int cache, run-time strings, floats, tuples are then never the same
+    object twice), so identity and equality do not coincide the way they do for literals. `twins`: an int label may also
+    arrive as the equal float (3 / 3.0), `npints`: as a numpy integer. Deterministic per case (seed stored in the case)."""
+
+    def __init__(self, seed, twins=False, npints=False):
+        import random
+        self.rnd = random.Random(seed)
+        self.twins, self.npints = twins, npints
+
+    def label(self, x):
+        if isinstance(x, (list, tuple)):
+            return tuple(self.label(y) for y in x)
+        if isinstance(x, bool) or x is None:
+            return x
+        if isinstance(x, int):
+            r = self.rnd.random()
+            if self.twins and abs(x) < 2 ** 53 and r < 0.3:
+                return float(x)
+            if self.npints and abs(x) < 2 ** 62 and r < 0.7:
+                import numpy as np
+                return np.int64(x)
+            return int(str(x))
+        if isinstance(x, float):
+            if self.twins and x.is_integer() and abs(x) < 2 ** 53 and self.rnd.random() < 0.3:
+                return int(x)
+            return float(repr(x))
+        if isinstance(x, str):
+            return "".join(list(x))
+        return x
+
+    def text(self, x):
+        return "".join(list(x))
+
+    def value(self, v):
+        if isinstance(v, dict):
+            return {self.text(k): self.value(x) for k, x in v.items()}
+        if isinstance(v, list):
+            return [self.value(x) for x in v]
+        if isinstance(v, bool) or v is None:
+            return v
+        if isinstance(v, int):
+            return int(str(v))
+        if isinstance(v, float):
+            return float(repr(v))
+        if isinstance(v, str):
+            return "".join(list(v))
+        return v
+
+    def md(self, md):
+        return {self.text(a): self.value(v) for a, v in md.items()}
 
 
 class Hang(Exception):
@@ -83,13 +204,17 @@ def guarded(f, seconds=20):
 # ---------------------------------------------------------------------------------------------
 # tokens
 
-def vtok(v):
+def vtok(v, strict=True):
+    """token of a metadata value = its ==-class in the pool; a value outside the pool (allowed values nobody can
+    have, e.g. the inner points of a range) has no token: None"""
     if v is None:
         return 0
     for i, pv in enumerate(VALUES):
-        if type(pv) is type(v) and pv == v:
+        if pv == v:
             return i + 1
-    raise ValueError(f"value {v!r} outside the pool")
+    if strict:
+        raise ValueError(f"value {v!r} outside the pool")
+    return None
 
 
 def md_tokens(md):
@@ -104,57 +229,154 @@ def md_tokens(md):
 def crit_wire(crit):
     if crit is None:
         return "none"
-    return hgxv.enc_lists([[ATTRS.index(a)] + [vtok(v) for v in vs] for a, vs in crit.items()])
+    return hgxv.enc_lists([[ATTRS.index(a)] + [t for t in (vtok(v, False) for v in vs) if t is not None]
+                           for a, vs in crit.items()])
 
 
 # ---------------------------------------------------------------------------------------------
 # Part A
 
-def gen_md(rng, p_empty=0.25):
+def gen_md(rng, p_empty=0.25, pool=None):
     if rng.random() < p_empty:
         return {}
     md = {}
     for a in rng.sample(ATTRS, rng.randint(1, 3)):
-        v = rng.choice(VALUES + [None]) if rng.random() < 0.9 else None
-        md[a] = list(v) if isinstance(v, list) else v
+        v = rng.choice(pool or (GEN_VALUES + [None])) if rng.random() < 0.9 else None
+        md[a] = deep(v)
     return md
 
 
-def gen_crit(rng, used_vals):
+def value_subpool(rng):
+    """the values one case draws its metadata from: a handful, so that items share values, with the equal values of
+    other types (1 / 1.0 / True) of some of them and usually a falsy family member"""
+    pool = rng.sample(GEN_VALUES, rng.randint(3, 7)) + [None]
+    for v in list(pool):
+        if v is not None and rng.random() < 0.4:
+            pool += CLASSES[vtok(v)]
+    if rng.random() < 0.5:
+        pool.append(rng.choice([0, "", [], {}, False, 0.0, "None", "0"]))
+    return pool
+
+
+CLASSES = {}
+for _v in GEN_VALUES:
+    CLASSES.setdefault(vtok(_v), []).append(_v)
+
+
+def gen_crit(rng, used_vals, all_vals):
+    """(criteria {attr: [allowed values]} | None, {attr: container kind}). The allowed values arrive as a list, tuple,
+    set, frozenset, dict (its keys) or range - the hash based ones only where the unchanged code can look every
+    metadata value of that attribute up in them (an unhashable value `in` a set is a TypeError of Python itself)"""
     r = rng.random()
     if r < 0.15:
-        return None
+        return None, {}
     if r < 0.2:
-        return {}
-    crit = {}
+        return {}, {}
+    crit, kinds = {}, {}
     for a in rng.sample(ATTRS, rng.choice([1, 1, 1, 2])):
-        pool = [v for v in used_vals.get(a, [])] * 3 + VALUES + [None]
-        crit[a] = [list(v) if isinstance(v, list) else v for v in (rng.choice(pool) for _ in range(rng.randint(1, 3)))]
-        if rng.random() < 0.05:
-            crit[a] = []
-    return crit
+        used = used_vals.get(a, [])
+        vals = []
+        for _ in range(rng.randint(1, 3)):
+            v = rng.choice(used) if used and rng.random() < 0.65 else rng.choice(GEN_VALUES + [None])
+            if v is not None and rng.random() < 0.35:
+                v = rng.choice(CLASSES[vtok(v)])          # an equal value, possibly of another type: 1 / 1.0 / True
+            vals.append(deep(v))
+        kind = "list"
+        r = rng.random()
+        if r < 0.05:
+            vals = []
+        elif r < 0.09:
+            lo = rng.choice([24, 25, 0, -1, 29])
+            vals, kind = list(range(lo, lo + rng.randint(1, 7))), "range"
+        if kind == "list" and rng.random() < 0.5:
+            if all(hashable(v) for v in vals) and all(hashable(v) for v in all_vals.get(a, [])):
+                kind = rng.choice(["tuple", "set", "frozenset", "dict", "set"])
+            else:
+                kind = "tuple"
+        crit[a], kinds[a] = vals, kind
+    return crit, kinds
+
+
+def realize_crit(F, crit, kinds):
+    """the criteria dictionary as the caller's objects: fresh attribute names, fresh values, the container kind"""
+    if crit is None:
+        return None
+    out = {}
+    for a, vals in crit.items():
+        kind = (kinds or {}).get(a, "list")
+        vs = [F.value(v) for v in vals]
+        if kind == "tuple":
+            c = tuple(vs)
+        elif kind == "set":
+            c = set(vs)
+        elif kind == "frozenset":
+            c = frozenset(vs)
+        elif kind == "dict":
+            c = {v: i for i, v in enumerate(vs)}
+        elif kind == "range":
+            c = range(vs[0], vs[-1] + 1) if vs else range(0)
+        else:
+            c = vs
+        out[F.text(a)] = c
+    return out
+
+
+LABEL_KINDS = ["small", "small", "str", "str", "big", "big", "huge", "float", "mixed_num", "tuple", "tuple_str", "npint"]
+
+
+def label_universe(rng, kind):
+    """candidate labels of one kind, in the JSON form a case stores (a tuple label is a list). Every kind is totally
+    ordered by Python's <, which is what the containers sort hyperedges with"""
+    if kind == "small":
+        return list(range(0, 30))
+    if kind == "str":
+        return [chr(97 + i) * rng.randint(1, 2) for i in range(12)] + ["user-%d" % i for i in range(1, 12)] + ["été", "N 1"]
+    if kind == "big":
+        return list(range(257, 300)) + [1000 + i for i in range(20)] + [10 ** 6 + i for i in range(5)]
+    if kind == "npint":         # most uses of a label arrive as numpy.int64 (equal to, hashing like, the Python int)
+        return list(range(0, 20)) + list(range(250, 265)) + [2 ** 40 + i for i in range(3)]
+    if kind == "huge":
+        return ([-2 ** 63 - 1, -2 ** 63, -7, 0, 1, 255, 256, 257] + [2 ** 53 + i for i in range(-1, 3)]
+                + [2 ** 63 + i for i in range(-2, 4)] + [2 ** 64 + i for i in range(-1, 3)] + [2 ** 70 + i for i in range(3)])
+    if kind == "float":
+        return [i + 0.5 for i in range(-2, 10)] + [0.0, 0.1, 1e-3, 3.0, 1e18, float(2 ** 53), float(2 ** 53) + 2, 2.5e-300]
+    if kind == "mixed_num":
+        return ([i + 0.5 for i in range(0, 8)] + [0, 1, 2, 3, 300, 301, 2 ** 53 + 1, 2 ** 53 + 2, 2 ** 53 + 3, float(2 ** 53),
+                                                 2 ** 63, 2 ** 63 + 1, 1e19, -1, -0.5])
+    if kind == "tuple":
+        return [[300 + i // 3, i % 3] for i in range(15)] + [[1], [1, 2], [1, 2, 3], [2 ** 63 + 1, 0], [2 ** 63 + 1, 1]]
+    if kind == "tuple_str":
+        return [["user-%d" % (i // 2), 1000 + i % 2] for i in range(12)] + [["a", 1], ["a", 2], ["b", 300]]
+    raise ValueError(kind)
 
 
 def gen_filter_case(rng):
     ty = rng.choice("HHTMD")
     n = rng.randint(3, 7)
-    if rng.random() < 0.3:
-        labels = sorted(rng.sample([chr(97 + i) * rng.randint(1, 2) for i in range(12)], n))
-    else:
-        labels = sorted(rng.sample(range(0, 30), n))
+    kind = rng.choice(LABEL_KINDS)
+    if kind.startswith("tuple") and ty in "TM":
+        kind = rng.choice(["str", "big", "huge"])      # tuple labels of Temporal/Multiplex: known findings D49 / D50
+    pick = rng.sample(label_universe(rng, kind), n + 1)
+    ghost_label = pick.pop()
+    labels = sorted(pick)
     weighted = rng.random() < 0.5
-    node_md = [[x, gen_md(rng, 0.15)] for x in labels if rng.random() < 0.8]
+    bigw = rng.random() < 0.25
+    times = rng.choice(TIMES)
+    vpool = value_subpool(rng)
+    node_md = [[x, gen_md(rng, 0.15, vpool)] for x in labels if rng.random() < 0.8]
     rng.shuffle(node_md)
     recs = []
 
     def weight():
         if not weighted:
             return None
+        if bigw:        # integers only (exact sums in any order), up to beyond 2**64
+            return rng.choice([1, 2, 3, 7, 2 ** 53 + 1, 2 ** 62, 2 ** 63, 2 ** 63 + 5, 2 ** 70])
         return rng.choice([1, 2, 3, 0.25, 0.5, 1.75, 4])
 
     def extra():
         if ty == "T":
-            return rng.randint(0, 2)
+            return rng.choice(times)
         if ty == "M":
             return rng.choice(LAYERS[:2] if rng.random() < 0.8 else LAYERS)
         return None
@@ -166,7 +388,7 @@ def gen_filter_case(rng):
             nodes = rng.sample(labels, size)
             k = rng.randint(1, size - 1)
             key = [nodes[:k], nodes[k:]]
-            recs.append([key, None, weight(), gen_md(rng)])
+            recs.append([key, None, weight(), gen_md(rng, 0.25, vpool)])
             r = rng.random()
             if r < 0.5 and size >= 3:
                 # the same hyperedge without one node of a side that has two: a shrink target
@@ -174,70 +396,90 @@ def gen_filter_case(rng):
                 if len(key[side]) >= 2:
                     drop = rng.choice(key[side])
                     k2 = [[x for x in key[0] if x != drop], [x for x in key[1] if x != drop]]
-                    recs.append([k2, None, weight(), gen_md(rng)])
+                    recs.append([k2, None, weight(), gen_md(rng, 0.25, vpool)])
                     if rng.random() < 0.5:
                         # the dropped node on the other side: two incident hyperedges with the same shrunk key
                         k3 = [list(k2[0]), list(k2[1])]
                         k3[1 - side].append(drop)
-                        recs.append([k3, None, weight(), gen_md(rng)])
+                        recs.append([k3, None, weight(), gen_md(rng, 0.25, vpool)])
         else:
             size = min(n, rng.choice([1, 2, 2, 3, 3, 4]))
             nodes = rng.sample(labels, size)
             ex = extra()
-            recs.append([nodes, ex, weight(), gen_md(rng)])
+            recs.append([nodes, ex, weight(), gen_md(rng, 0.25, vpool)])
             r = rng.random()
             if r < 0.45 and size >= 2:
                 drop = rng.choice(nodes)
                 sub = [x for x in nodes if x != drop]
-                recs.append([sub, ex if rng.random() < 0.8 else extra(), weight(), gen_md(rng)])
+                recs.append([sub, ex if rng.random() < 0.8 else extra(), weight(), gen_md(rng, 0.25, vpool)])
             elif r < 0.6 and size < n:
                 sup = nodes + [rng.choice([x for x in labels if x not in nodes])]
-                recs.append([sup, ex, weight(), gen_md(rng)])
+                recs.append([sup, ex, weight(), gen_md(rng, 0.25, vpool)])
     rng.shuffle(recs)
+    case = {"part": "filter", "type": ty, "weighted": weighted, "label_kind": kind, "labels": labels, "node_md": node_md,
+            "records": recs, "mode": rng.choice(["keep", "remove"]), "keep_edges": rng.random() < 0.5,
+            "fresh": rng.randrange(1 << 30), "twins": kind in ("small", "big") and rng.random() < 0.2,
+            "share_md": rng.random() < 0.25}
+    if rng.random() < 0.3:
+        # history with removals before the filter: records through a node outside `labels` are inserted among the
+        # real ones and taken out again (hyperedge by hyperedge, or with their node), so that ids have gaps
+        ghosts = []
+        for _ in range(rng.randint(1, 3)):
+            others = rng.sample(labels, rng.randint(1, min(3, n)))
+            key = [[ghost_label], others] if ty == "D" else [ghost_label] + others
+            ghosts.append([rng.randint(0, len(recs)), key, extra(), weight(), gen_md(rng, 0.25, vpool)])
+        case["ghosts"] = {"label": ghost_label, "records": ghosts, "how": rng.choice(["edges", "node", "node_keep"])}
     used_n, used_e = {}, {}
     for _, md in node_md:
         for a, v in md.items():
             used_n.setdefault(a, []).append(v)
-    for r in recs:
+    for r in recs + [g[1:] for g in (case.get("ghosts") or {"records": []})["records"]]:
         for a, v in r[3].items():
             used_e.setdefault(a, []).append(v)
-    case = {"part": "filter", "type": ty, "weighted": weighted, "labels": labels, "node_md": node_md, "records": recs,
-            "node_criteria": gen_crit(rng, used_n), "edge_criteria": gen_crit(rng, used_e),
-            "mode": rng.choice(["keep", "remove"]), "keep_edges": rng.random() < 0.5}
-    if rng.random() < 0.1:
-        case["edge_criteria"] = None
-    if rng.random() < 0.3:
-        # history with removals before the filter: records through a node outside `labels` are inserted among the
-        # real ones and taken out again (hyperedge by hyperedge, or with their node), so that ids have gaps
-        g = "zz" if isinstance(labels[0], str) else 99
-        ghosts = []
-        for _ in range(rng.randint(1, 3)):
-            others = rng.sample(labels, rng.randint(1, min(3, n)))
-            key = [[g], others] if ty == "D" else [g] + others
-            ghosts.append([rng.randint(0, len(recs)), key, extra(), weight(), gen_md(rng)])
-        case["ghosts"] = {"label": g, "records": ghosts, "how": rng.choice(["edges", "node", "node_keep"])}
+
+    def crits(c):
+        c["keep_kind"] = rng.choice(["bool"] * 16 + ["numpy.bool_", "int"])
+        c["node_criteria"], c["node_kinds"] = gen_crit(rng, used_n, used_n)
+        c["edge_criteria"], c["edge_kinds"] = gen_crit(rng, used_e, used_e)
+        if rng.random() < 0.1:
+            c["edge_criteria"], c["edge_kinds"] = None, {}
+        return c
+
+    crits(case)
     if rng.random() < 0.3:
         # a second call on the same (already filtered) object
-        case["then"] = [{"node_criteria": gen_crit(rng, used_n), "edge_criteria": gen_crit(rng, used_e),
-                         "mode": rng.choice(["keep", "remove"]), "keep_edges": rng.random() < 0.5}]
+        case["then"] = [crits({"mode": rng.choice(["keep", "remove"]), "keep_edges": rng.random() < 0.5})]
     return case
 
 
-def build(case):
+def build(case, F):
     from hypergraphx import Hypergraph, DirectedHypergraph, TemporalHypergraph, MultiplexHypergraph
     ty, weighted = case["type"], case["weighted"]
     cls = {"H": Hypergraph, "T": TemporalHypergraph, "M": MultiplexHypergraph, "D": DirectedHypergraph}[ty]
     h = cls(weighted=weighted)
+    shared = {}
+
+    def mdobj(md):
+        # fresh equal objects for every item, or (share_md) ONE dict object for all items with equal metadata
+        if case.get("share_md"):
+            k = repr(sorted(md.items(), key=repr))
+            if k not in shared:
+                shared[k] = F.md(md)
+            return shared[k]
+        return F.md(md)
+
     for x, md in case["node_md"]:
-        h.add_node(x, metadata=dict(md))
+        h.add_node(F.label(x), metadata=mdobj(md))
 
     def add(nodes, ex, w, md):
+        if isinstance(w, int) and not isinstance(w, bool):
+            w = int(str(w))
         if ty == "D":
-            h.add_edge((tuple(nodes[0]), tuple(nodes[1])), weight=w, metadata=dict(md))
+            h.add_edge((F.label(nodes[0]), F.label(nodes[1])), weight=w, metadata=mdobj(md))
         elif ty == "H":
-            h.add_edge(tuple(nodes), weight=w, metadata=dict(md))
+            h.add_edge(F.label(nodes), weight=w, metadata=mdobj(md))
         else:
-            h.add_edge(tuple(nodes), ex, weight=w, metadata=dict(md))
+            h.add_edge(F.label(nodes), F.value(ex), weight=w, metadata=mdobj(md))
 
     gh = case.get("ghosts") or {"records": []}
     for i, (nodes, ex, w, md) in enumerate(case["records"]):
@@ -250,16 +492,17 @@ def build(case):
             add(*g)
     for x in case["labels"]:
         if rng_free_isolated(case, x):
-            h.add_node(x)
+            h.add_node(F.label(x))
     if gh["records"]:
+        g = lab(gh["label"])
         if gh["how"] == "edges":
-            for key in [k for k in h.get_edges() if gh["label"] in key_nodes(ty, k)]:
+            for key in [k for k in h.get_edges() if g in key_nodes(ty, k)]:
                 h.remove_edge(key)
-            h.remove_node(gh["label"])
+            h.remove_node(F.label(g))
         else:
             # "node_keep": the shrunk records stay behind as ordinary records of the content before the filter
-            h.remove_node(gh["label"], keep_edges=(gh["how"] == "node_keep"))
-        if gh["label"] in h.get_nodes() or any(gh["label"] in key_nodes(ty, k) for k in h.get_edges()):
+            h.remove_node(F.label(g), keep_edges=(gh["how"] == "node_keep"))
+        if g in h.get_nodes() or any(g in key_nodes(ty, k) for k in h.get_edges()):
             raise ValueError("the history did not remove its extra node")
     return h
 
@@ -303,14 +546,15 @@ def content_of(h, ty):
     return nodes, edges
 
 
-def incidence_of(h, ty, nodes):
-    """adjacency side of the digest: for each node the multiset of incident keys"""
+def incidence_of(h, ty, nodes, rank):
+    """adjacency side of the digest: for each node the multiset of incident keys (in the model's vocabulary)"""
     out = {}
     for x in nodes:
         if ty == "D":
-            out[x] = (sorted(map(repr, h.get_source_edges(x))), sorted(map(repr, h.get_target_edges(x))))
+            out[x] = (sorted(wire_key(ty, k, rank) for k in h.get_source_edges(x)),
+                      sorted(wire_key(ty, k, rank) for k in h.get_target_edges(x)))
         else:
-            out[x] = sorted(map(repr, h.get_incident_edges(x)))
+            out[x] = sorted(wire_key(ty, k, rank) for k in h.get_incident_edges(x))
     return out
 
 
@@ -335,9 +579,11 @@ def tokens_of(ty, nodes, edges, rank):
 
 
 def matches(md, crit):
-    """the property's words: the item's metadata match every criterion"""
+    """the property's words: for every criterion the item's value (None when it lacks the attribute) is one of the
+    allowed values - equality of values, whatever container the caller put them in"""
     for attr in crit:
-        if (md[attr] if attr in md else None) not in crit[attr]:
+        x = md[attr] if attr in md else None
+        if not any(x == a for a in crit[attr]):
             return False
     return True
 
@@ -372,17 +618,23 @@ def oracle_filter(case, ty, weighted, nodes0, edges0, nodes1, edges1):
     want_nodes = {x: md for x, md in nodes0.items() if x not in R}
     if set(nodes1) != set(want_nodes):
         bad.append(f"nodes after = {sorted(nodes1, key=repr)}, criteria say {sorted(want_nodes, key=repr)}")
-    for x in want_nodes:
-        if x in nodes1 and nodes1[x] != want_nodes[x]:
+    own0 = {x: x for x in nodes0}
+    for x in nodes1:
+        if x in want_nodes and not same(nodes1[x], want_nodes[x]):
             bad.append(f"metadata of surviving node {x!r} changed: {want_nodes[x]!r} -> {nodes1[x]!r}")
+        if x in own0 and not same(x, own0[x]):
+            bad.append(f"surviving node {own0[x]!r} is now listed as {x!r}")
     if not keep:
         want = {k: v for k, v in edges0.items()
                 if not (set(key_nodes(ty, k)) & R) and not is_selected(v[1], ecrit, mode)}
         if set(edges1) != set(want):
             bad.append(f"hyperedges after = {sorted(edges1, key=repr)}, criteria say {sorted(want, key=repr)}")
-        for k in want:
-            if k in edges1 and (edges1[k][0] != want[k][0] or edges1[k][1] != want[k][1]):
+        own0 = {k: k for k in edges0}
+        for k in edges1:
+            if k in want and not (same(edges1[k][0], want[k][0]) and same(edges1[k][1], want[k][1])):
                 bad.append(f"surviving hyperedge {k!r} changed: {want[k]!r} -> {edges1[k]!r}")
+            if k in own0 and not same(k, own0[k]):
+                bad.append(f"surviving hyperedge {own0[k]!r} is now listed as {k!r}")
     else:
         groups = {}
         for k, v in edges0.items():
@@ -399,7 +651,9 @@ def oracle_filter(case, ty, weighted, nodes0, edges0, nodes1, edges1):
                 wsum = sum(m[0] for m in members) if weighted else 1
                 if w != wsum:
                     bad.append(f"weight of {k2!r} is {w!r}, the shrunk hyperedges weigh {wsum!r}")
-                if not any(md == c for c in cands):
+                if len(members) == 1 and k2 in edges0 and not same(w, members[0][0]):
+                    bad.append(f"weight of the untouched hyperedge {k2!r} changed: {members[0][0]!r} -> {w!r}")
+                if not any(same(md, c) for c in cands):
                     bad.append(f"metadata of {k2!r} is {md!r}, not the metadata of a hyperedge shrunk to it")
                 elif is_selected(md, ecrit, mode):
                     bad.append(f"hyperedge {k2!r} with metadata {md!r} should have been removed by the hyperedge criteria")
@@ -411,14 +665,18 @@ def oracle_filter(case, ty, weighted, nodes0, edges0, nodes1, edges1):
 
 def snapshot(content):
     nodes, edges = content
-    return ({x: dict(md) if isinstance(md, dict) else md for x, md in nodes.items()},
-            {k: (w, dict(md) if isinstance(md, dict) else md) for k, (w, md) in edges.items()})
+    return ({x: deep(md) for x, md in nodes.items()}, {k: (w, deep(md)) for k, (w, md) in edges.items()})
+
+
+STEP_KEYS = ("node_criteria", "edge_criteria", "node_kinds", "edge_kinds", "mode", "keep_edges", "keep_kind")
 
 
 def check_filter(ctx, drv, case):
     ty = case["type"]
     ctx.count("filter_type_" + ty)
-    h, err = guarded(lambda: build(case))
+    ctx.count("filter_labels_" + case.get("label_kind", "literal"))
+    F = Fresh(case.get("fresh", 0), twins=bool(case.get("twins")), npints=case.get("label_kind") == "npint")
+    h, err = guarded(lambda: build(case, F))
     if err:
         # construction through add_node/add_edge/remove_* is C01-C04's business; not a C19 observation
         ctx.count("filter_build_failed")
@@ -429,20 +687,34 @@ def check_filter(ctx, drv, case):
         return
     nodes0, edges0 = snapshot(pre)
     weighted = bool(h.is_weighted())
-    rank = {x: i for i, x in enumerate(sorted(case["labels"]))}
-    steps = [{k: case[k] for k in ("node_criteria", "edge_criteria", "mode", "keep_edges")}] + list(case.get("then") or [])
+    rank = {x: i for i, x in enumerate(sorted(lab(x) for x in case["labels"]))}
+    steps = [{k: case.get(k) for k in STEP_KEYS}] + list(case.get("then") or [])
     if case.get("ghosts"):
         ctx.count("filter_history_with_removals")
     for idx, step in enumerate(steps):
         if idx:
             ctx.count("filter_second_call_on_same_object")
-        res = filter_step(ctx, drv, case, h, ty, weighted, rank, step, steps[idx + 1:], nodes0, edges0, idx)
+        res = filter_step(ctx, drv, case, h, ty, weighted, rank, step, steps[idx + 1:], nodes0, edges0, idx, F)
         if res is None:
             return
         nodes0, edges0 = res
 
 
-def filter_step(ctx, drv, case, h, ty, weighted, rank, step, later, nodes0, edges0, idx):
+def spoil(crit):
+    """the caller goes on using its criteria objects after the call: empty / overwrite them in place"""
+    if crit is None:
+        return
+    for c in crit.values():
+        if isinstance(c, list):
+            c.clear()
+            c.append(None)
+        elif isinstance(c, (set, dict)):
+            c.clear()
+    crit.clear()
+    crit["type"] = ["nobody"]
+
+
+def filter_step(ctx, drv, case, h, ty, weighted, rank, step, later, nodes0, edges0, idx, F):
     """one `filter_hypergraph` call on `h` whose content before the call is (nodes0, edges0);
     returns the content after it (None when something was reported)"""
     from hypergraphx.filters import filter_hypergraph
@@ -453,16 +725,51 @@ def filter_step(ctx, drv, case, h, ty, weighted, rank, step, later, nodes0, edge
     n_sel = sum(is_selected(md, ncrit, mode) for md in nodes0.values() if isinstance(md, dict))
     e_sel = sum(is_selected(v[1], ecrit, mode) for v in edges0.values() if isinstance(v[1], dict))
     nontrivial = (0 < n_sel < len(nodes0)) or (0 < e_sel < len(edges0))
-    key = repr((ty, weighted, sorted(nodes0.items(), key=repr), sorted(edges0.items(), key=repr), ncrit, ecrit, mode, keep))
+    key = repr((ty, weighted, sorted(nodes0.items(), key=repr), sorted(edges0.items(), key=repr), ncrit, ecrit,
+                step.get("node_kinds"), step.get("edge_kinds"), mode, keep))
     ctx.case(key, nontrivial, sample=case if idx == 0 else None)
     ctx.count("filter_mode_%s_keep%d" % (mode, keep))
     if ncrit is None or ecrit is None:
         ctx.count("filter_criteria_none")
+    for kinds in (step.get("node_kinds"), step.get("edge_kinds")):
+        for k in (kinds or {}).values():
+            ctx.count("filter_allowed_values_as_" + k)
 
-    _, err = guarded(lambda: filter_hypergraph(h, node_criteria=ncrit, edge_criteria=ecrit, mode=mode, keep_edges=keep))
+    # the caller's objects: criteria with fresh attribute names / values in the chosen containers, a run-time mode string
+    ncrit_obj = realize_crit(F, ncrit, step.get("node_kinds"))
+    ecrit_obj = realize_crit(F, ecrit, step.get("edge_kinds"))
+    if ncrit is not None and ecrit is not None and ncrit == ecrit and step.get("node_kinds") == step.get("edge_kinds") \
+            and F.rnd.random() < 0.5:
+        ecrit_obj = ncrit_obj                      # ONE dictionary object for both roles
+    before = (deep(ncrit_obj), deep(ecrit_obj))
+    mode_obj = F.text(mode)
+    keep_obj = keep
+    if step.get("keep_kind") == "numpy.bool_":
+        import numpy as np
+        keep_obj = np.bool_(keep)
+    elif step.get("keep_kind") == "int":
+        keep_obj = int(keep)
+    ret, err = guarded(lambda: filter_hypergraph(h, node_criteria=ncrit_obj, edge_criteria=ecrit_obj, mode=mode_obj,
+                                                 keep_edges=keep_obj))
     if err:
         ctx.violation(case, f"{tag}filter_hypergraph on {type(h).__name__} (mode={mode}, keep_edges={keep}) does not return: {err}")
         return None
+    changed = [n for n, a, b in (("node_criteria", ncrit_obj, before[0]), ("edge_criteria", ecrit_obj, before[1]))
+               if not same(a, b)]
+    if changed:
+        ctx.violation(case, f"{tag}filter_hypergraph changed the caller's {' and '.join(changed)}: {before!r} -> "
+                            f"{(ncrit_obj, ecrit_obj)!r}; the same criteria no longer say the same on their next use")
+        return None
+    if ret is not None and ret is not h:
+        # documented: works in place and returns None; whatever else it hands back must not be a different answer
+        other, err = guarded(lambda: content_of(ret, ty))
+        mine, _ = guarded(lambda: content_of(h, ty))
+        if err or mine is None or other[0] != mine[0] or other[1] != mine[1]:
+            ctx.violation(case, f"{tag}filter_hypergraph returned {type(ret).__name__} whose content is not the content of "
+                                f"the (in place) filtered argument")
+            return None
+    spoil(ncrit_obj)
+    spoil(ecrit_obj)
     post, err = guarded(lambda: content_of(h, ty))
     if err:
         ctx.violation(case, f"{tag}the container cannot be listed after filter_hypergraph: {err}")
@@ -480,17 +787,18 @@ def filter_step(ctx, drv, case, h, ty, weighted, rank, step, later, nodes0, edge
         return None
     bad = oracle_filter(ocase, ty, weighted, nodes0, edges0, nodes1, edges1)
     # nothing else changes: weighted flag, hypergraph metadata, adjacency consistent with the records
-    inc, err = guarded(lambda: incidence_of(h, ty, nodes1))
+    inc, err = guarded(lambda: incidence_of(h, ty, nodes1, rank))
     if err:
         bad.append(f"incidence queries fail after the filter: {err}")
     else:
         for x in nodes1:
             if ty == "D":
-                want = (sorted(repr(k) for k in edges1 if x in k[0]), sorted(repr(k) for k in edges1 if x in k[1]))
+                want = (sorted(wire_key(ty, k, rank) for k in edges1 if x in k[0]),
+                        sorted(wire_key(ty, k, rank) for k in edges1 if x in k[1]))
             else:
-                want = sorted(repr(k) for k in edges1 if x in key_nodes(ty, k))
+                want = sorted(wire_key(ty, k, rank) for k in edges1 if x in key_nodes(ty, k))
             if inc[x] != want:
-                bad.append(f"incident hyperedges of {x!r} are {inc[x]}, the records say {want}")
+                bad.append(f"incident hyperedges of {x!r} are {inc[x]}, the records say {want} (labels as ranks)")
     if bool(h.is_weighted()) != weighted:
         bad.append("is_weighted() changed")
     hmeta1, err = guarded(lambda: dict(h.get_hypergraph_metadata()))
@@ -879,49 +1187,124 @@ def gen_svh_case(rng, heavy=False, huge=False):
         if a is not None:
             case["alpha"] = a
             case["alpha_how"] = "between breakpoints" + (", not a prefix" if nonmono else "")
+    return svh_relabel(rng, case)
+
+
+SVH_LABEL_KINDS = ["small", "small", "str", "big", "huge", "huge", "float", "mixed_num", "mixed_num", "tuple", "npint", "npint"]
+
+
+def svh_label_map(kind, shift):
+    """strictly increasing map from the generator's labels (ints 0..39 or letters) to label objects of a kind, in the
+    JSON form of a case (a tuple label is a list)"""
+    def f(i):
+        if kind == "str":
+            return "n%02d-%s" % (i, "xyz"[i % 3])
+        if kind == "big":
+            return 257 + 7 * i if i < 20 else 10 ** 6 + i
+        if kind == "huge":
+            # bands: small, around 2**53, below 2**63, above 2**63, beyond 2**64, 2**70: neighbours of one band
+            # collapse when something turns them into float64, bands below and above 2**63 do not fit one integer dtype
+            band = (i + shift) // 7
+            return [i, 2 ** 53 + i, 2 ** 63 - 60 + i, 2 ** 63 + i, 2 ** 64 + i, 2 ** 70 + i, 2 ** 70 + 2 ** 64 + i][band]
+        if kind == "float":
+            return i * 0.25 + (1e15 if i >= 30 else 0.0)
+        if kind == "mixed_num":
+            # floats next to integers, the integers from 20 on beyond 2**53 (neighbours collapse as float64)
+            if i < 20:
+                return i + 0.5 if (i + shift) % 2 else i
+            return 2 ** 53 + 1 + i if i < 32 else float(2 ** 60) * (i - 30)
+        if kind == "tuple":
+            return [300 + (i + shift) // 4, (i + shift) % 4]
+        return i
+    return f
+
+
+def svh_relabel(rng, case):
+    kind = rng.choice(SVH_LABEL_KINDS)
+    case["fresh"] = rng.randrange(1 << 30)
+    top = max([w for _, w in case["edges"]] + [g[2] for g in (case.get("history") or {}).get("ghost_edges") or []] + [1])
+    case["weight_kind"] = rng.choice(["int", "int", "int64", "int32", "int16" if top < 2 ** 14 else "int64",
+                                      "uint8" if top < 128 else "uint32"])
+    case["label_kind"] = kind
+    case["np_args"] = rng.random() < 0.12          # max_order / alpha arrive as numpy scalars
+    if kind in ("small", "npint") and isinstance(case["labels"][0], int):
+        return case
+    if isinstance(case["labels"][0], str):
+        idx = {x: i for i, x in enumerate("abcdefghijklmnopqrstuvwxyz")}
+        if kind in ("small", "npint"):
+            case["label_kind"] = kind = "str"
+    else:
+        idx = {x: x for x in range(0, 40)}
+    f = svh_label_map(kind, rng.randint(0, 6))
+    conv = lambda x: f(idx[x])
+    case["labels"] = [conv(x) for x in case["labels"]]
+    case["edges"] = [[[conv(x) for x in e], w] for e, w in case["edges"]]
+    hist = case.get("history") or {}
+    if "ghost_edges" in hist:
+        hist["ghost_edges"] = [[pos, [conv(x) for x in e], w] for pos, e, w in hist["ghost_edges"]]
+    if "isolated" in hist:
+        hist["isolated"] = [conv(x) for x in hist["isolated"]]
+    if "again" in case:
+        ag = case["again"]
+        case["again"] = {"remove": [[conv(x) for x in ag["remove"][0]], ag["remove"][1]], "add": [conv(x) for x in ag["add"]]}
     return case
 
 
-def build_svh(case):
+def np_weight(kind, w):
+    """the weight as the caller's object: a fresh Python int or a numpy integer"""
+    if w is None:
+        return None
+    if kind in (None, "int"):
+        return int(str(w))
+    import numpy as np
+    return getattr(np, kind)(w)
+
+
+def build_svh(case, F):
     from hypergraphx import Hypergraph
     weighted = case["weighted"]
     hist = case.get("history") or {}
     h = Hypergraph(weighted=weighted)
     ghosts = hist.get("ghost_edges") or []
     split = set(hist.get("split") or [])
-    edges = [(tuple(e), int(w)) for e, w in case["edges"]]
+    edges = [(lab(e), int(w)) for e, w in case["edges"]]
+    wk = case.get("weight_kind")
 
     def add(e, w, i):
-        # the tuple is handed over in a rotated order: Hypergraph.add_edge canonicalises it
+        # the tuple is handed over in a rotated order: Hypergraph.add_edge canonicalises it; every label and the weight
+        # are newly made objects (a hyperedge that gets its weight in two instalments is named by two equal tuples)
         e_in = e[i % len(e):] + e[:i % len(e)]
-        h.add_edge(e_in, weight=w if weighted else None)
+        h.add_edge(F.label(e_in), weight=np_weight(wk, w) if weighted else None)
 
     for i, (e, w) in enumerate(edges):
         for pos, ge, gw in ghosts:
             if pos == i:
-                add(tuple(ge), gw, i)
+                add(lab(ge), gw, i)
         if i in split and weighted and w >= 2:
             add(e, w // 2, i)            # the rest of the weight follows after the loop
         else:
             add(e, w, i)
     for pos, ge, gw in ghosts:
         if pos >= len(edges):
-            add(tuple(ge), gw, pos)
+            add(lab(ge), gw, pos)
     for x in hist.get("isolated") or []:
-        h.add_node(x)
+        h.add_node(F.label(x))
     for i, (e, w) in enumerate(edges):
         if i in split and weighted and w >= 2:
             add(e, w - w // 2, i + 1)
     for pos, ge, gw in ghosts:
-        h.remove_edge(tuple(sorted(ge)))
+        h.remove_edge(F.label(sorted(lab(ge))))
     return h
 
 
 def check_svh(ctx, drv, case):
-    h, err = guarded(lambda: build_svh(case))
+    F = Fresh(case.get("fresh", 0), npints=case.get("label_kind") == "npint")
+    h, err = guarded(lambda: build_svh(case, F))
     if err:
         ctx.count("svh_build_failed")        # construction is C01's business
         return
+    ctx.count("svh_labels_" + case.get("label_kind", "literal"))
+    ctx.count("svh_weights_as_" + (case.get("weight_kind") or "int"))
     if case.get("history"):
         ctx.count("svh_history")
     if not svh_round(ctx, drv, case, h, ""):
@@ -931,8 +1314,8 @@ def check_svh(ctx, drv, case):
         # the SAME object, changed in place so that the numbers of nodes and hyperedges stay what they were
         def change():
             e_old, w_old = again["remove"]
-            h.remove_edge(tuple(e_old))
-            h.add_edge(tuple(again["add"]), weight=w_old if case["weighted"] else None)
+            h.remove_edge(F.label(e_old))
+            h.add_edge(F.label(again["add"]), weight=np_weight(case.get("weight_kind"), w_old) if case["weighted"] else None)
         _, err = guarded(change)
         if err:
             ctx.count("svh_build_failed")
@@ -946,14 +1329,21 @@ def svh_round(ctx, drv, case, h, tag):
     from hypergraphx.filters.statistical_filters import get_svh
     bound, alpha, mp = case["max_order"], case["alpha"], case.get("mp", False)
     style = case.get("style", "random")
+    import numbers
     E, err = guarded(lambda: [(tuple(e), h.get_weight(e)) for e in h.get_edges()])
-    if err or any(not isinstance(w, int) or isinstance(w, bool) or w < 1 or tuple(sorted(e)) != e for e, w in E):
+    if err or any(not isinstance(w, numbers.Integral) or isinstance(w, bool) or w < 1 or tuple(sorted(e)) != e for e, w in E):
         ctx.count("svh_build_failed")
         return False
+    E = [(e, int(w)) for e, w in E]
     ctx.count("svh_style_" + style)
-    labels = sorted(set(case["labels"]) | {x for e, _ in E for x in e})
+    labels = sorted({lab(x) for x in case["labels"]} | {x for e, _ in E for x in e})
     rank = {x: i for i, x in enumerate(labels)}
-    res, err = guarded(lambda: get_svh(h, max_order=bound, alpha=alpha, mp=mp), 60 if mp else 30)
+    a_bound, a_alpha = bound, alpha
+    if case.get("np_args"):
+        import numpy as np
+        a_bound, a_alpha = np.int64(bound), np.float64(alpha)
+        ctx.count("svh_numpy_scalar_arguments")
+    res, err = guarded(lambda: get_svh(h, max_order=a_bound, alpha=a_alpha, mp=mp), 60 if mp else 30)
     ctx.count("svh_mp" if mp else "svh_serial")
     if err:
         ctx.case(repr((E, bound, alpha)), False, sample=case)
